@@ -110,6 +110,7 @@ structure SpecIn where
   out : SHdrs             -- what the upstream received
   viaReverseProxy : Bool  -- X-Forwarded-For is expected on every request (ReverseProxy appends it)
   reqid : Option String   -- expected request id value when the header is configured
+  checkConn : Bool := false -- `out` is addHeaders' own result: also check the rewritten Connection header
 
 /-- The sentences of the property, each with a name; returns the names of the failing ones. -/
 def specClauses (s : SpecIn) : List String :=
@@ -128,6 +129,11 @@ def specClauses (s : SpecIn) : List String :=
   let plainOrTls := if s.tls then "https" else "http"
   let mgd (n : String) : Bool := (cip != "" && eqFold cip n) || (tlsh != "" && eqFold tlsh n) || (rid != "" && eqFold rid n)
   let c (name : String) (ok : Bool) : List String := if ok then [] else [name]
+  -- Connection tokens, as written, and whether one names a header fabio maintains
+  let toks (vs : List String) : List String := vs.flatMap fun v => (splitComma (s2l v)).map l2s
+  let namesManaged (t : String) : Bool :=
+    let n := lowerS (l2s (trimBlanks (s2l t)))
+    n != "" && ((managedLower.contains n && n != "upgrade") || mgd n)
   -- the configured client-IP header is overwritten with the peer address
   c "clientip" (!cipFree || recv s.out cip == [s.peer]) ++
   -- the peer is the last element of X-Forwarded-For (websocket path by addHeaders, otherwise by ReverseProxy)
@@ -156,6 +162,10 @@ def specClauses (s : SpecIn) : List String :=
        | none => true
        | some (some p) => recv s.out "X-Forwarded-Port" == [p]
        | some none => recv s.out "X-Forwarded-Port" == [if s.tls then "443" else "80"])) ++
+  -- the Connection header no longer names a managed header; every other token is kept as written
+  c "connection" (!s.checkConn || (s.wire.any fun e => eqFold e.1 "Connection" && e.2.isNone) ||
+      (toks (recv s.out "Connection") == (toks (sent s.wire "Connection")).filter (fun t => !namesManaged t))
+      || ((toks (sent s.wire "Connection")).all namesManaged && recv s.out "Connection" == [])) ++
   -- request id
   c "requestid" (match s.reqid with
       | none => true
@@ -176,6 +186,7 @@ def degenerateCfg (cfg : Cfg) : Bool :=
   let tlsh := lowerS (l2s cfg.tlsHeader)
   let rid := lowerS (l2s cfg.requestID)
   let bad (n : String) := n != "" && !((s2l n).all isTokenChar)
+  cip == "connection" || tlsh == "connection" || rid == "connection" ||
   (tlsh != "" && managedLower.contains tlsh) || (rid != "" && managedLower.contains rid) ||
   (cip != "" && managedLower.contains cip && cip != "x-forwarded-for" && cip != "x-real-ip") ||
   (cip != "" && (cip == tlsh || cip == rid)) || (tlsh != "" && tlsh == rid) ||
@@ -228,12 +239,15 @@ def unitH : Handler := fun inp impl => do
     if isPanic then ["panic"] else
     if iErr || degenerateCfg cfg then [] else
       specClauses { wire := wire, cfg := cfg, peer := specPeer remote, tls := tls.isSome, host := host,
-                    out := iHdr, viaReverseProxy := false, reqid := none } ++
+                    out := iHdr, viaReverseProxy := false, reqid := none, checkConn := true } ++
       (if stsSpec cfg tls.isSome true (recv iResp "Strict-Transport-Security") then [] else ["sts"])
   let cls := if iErr then "remote-unparsable" else if degenerateCfg cfg then "config-collision" else
     let u := upgradeClass wire tls.isSome
     let hc := hostClass host
-    if hc != "" then u ++ "/" ++ hc else u
+    let connManaged := (sent wire "Connection").any fun v => (splitComma (s2l v)).any fun t =>
+      let n := lowerS (l2s (trimBlanks t))
+      n != "" && (managedLower.contains n || n == lowerS (l2s cfg.clientIPHeader) || n == lowerS (l2s cfg.tlsHeader))
+    (if hc != "" then u ++ "/" ++ hc else u) ++ (if connManaged then "/conn-names-managed" else "")
   let tag := match failing with
     | [] => cls
     | f :: _ => f ++ "@" ++ cls
@@ -294,12 +308,12 @@ def proxyH : Handler := fun inp impl => do
   let u := upgradeClass wire tlsOn
   let cls := if degenerateCfg cfg then "config-collision" else u ++ (if hostClass host != "" then "/host-ipv6" else "") ++
     (if hostOpt == "" then "" else if hostOpt == "dst" then "/hostopt-dst" else "/hostopt-literal")
-  -- finding D12d: the client names a header of this property in its Connection header
+  -- former finding D12d: the client names a header of this property in its Connection header
   let connNames := (sent wire "Connection").flatMap fun v => (splitComma (s2l v)).map fun t => lowerS (l2s (trimBlanks t))
   let namesManaged := connNames.any fun n => n != "" && (managedLower.contains n ||
       n == lowerS (l2s cfg.clientIPHeader) || n == lowerS (l2s cfg.tlsHeader) || n == lowerS (l2s cfg.requestID))
-  let tag := if namesManaged then (if failing.isEmpty then "connection-names-managed-header/ok" else "connection-names-managed-header")
-    else match failing with
+  let cls := if namesManaged then cls ++ "/conn-names-managed" else cls
+  let tag := match failing with
     | [] => cls
     | f :: _ => f ++ "@" ++ cls
   let _ := status
